@@ -17,7 +17,7 @@ RULE = sqlmon.RULE_HISTORIES + ' Worker messages are duplicated / late / stale b
 ASSUMPTIONS = sqlmon.COMMON_ASSUMPTIONS
 SHARDS = {'quick': 4, 'thorough': 16}
 TIMEOUT = {'quick': 900, 'thorough': 3600}
-FLOORS = {'job_state_transitions': 300, 'job_state_edges': 8, 'duplicate_or_late_completions': 20, 'sql_routine:mark_job_complete': 100, 'histories_free_of_known_patterns': 50}
+FLOORS = {'scripted_stale_attempt_then_deactivation': 20, 'fallbacks_to_ready_checked': 30, 'job_state_transitions': 300, 'job_state_edges': 8, 'duplicate_or_late_completions': 20, 'sql_routine:mark_job_complete': 100, 'histories_free_of_known_patterns': 50}
 
 
 class Tallies(Monitor):
@@ -40,6 +40,64 @@ class Tallies(Monitor):
                     self.r.ctx.count('duplicate_or_late_completions')
 
 
+async def scripted(runner, w, fz, rng):
+    """directed prefix: job 1 runs under attempt a1 on worker A; A stops answering, a1 is withdrawn (unschedule) and the job is
+    rescheduled under a2 on worker B; then A is deactivated.  Only jobs whose *current* attempt is on A may fall back to Ready."""
+    from batch.driver.job import unschedule_job
+    from batch.front_end.validate import validate_and_clean_jobs
+    from vf.world.oracles import View
+    from vf.world.world import userdata
+
+    ctx = runner.ctx
+    user = 'alice'
+    ud = userdata(user)
+    fe = w.fe
+    n = rng.choice([2, 2, 3])
+    bid = await fe._create_batch({'billing_project': 'bp-a', 'token': 'c04s', 'n_jobs': n}, ud, w.db)
+    fz.batches[bid] = {'user': user, 'token': 'c04s', 'groups': {0}, 'cancelled': set(), 'deleted': False}
+    u1, _, _ = await fe._create_batch_update(bid, 'c04s', n, 0, user, w.db)
+    jobs = [{'job_id': i, 'process': {'type': 'docker', 'command': ['true'], 'image': 'u'}, 'resources': {'cpu': '1', 'memory': 'standard', 'storage': '1Gi'}} for i in range(1, n + 1)]
+    validate_and_clean_jobs(jobs)
+    await fe._create_jobs(ud, jobs, bid, u1, w.fe_app)
+    await fe._commit_update(w.fe_app, bid, u1, user, w.db)
+    A = await w.create_instance('standard', cores=4)
+    pool = w.pools['standard']
+    await pool.scheduler.schedule_loop_body()
+    await fz._drain()
+    fz.sync_attempts_from_db()
+    j1 = View(w.engine).jobs[(bid, 1)]
+    if j1['state'] != 'Running' or j1['attempt_id'] is None:
+        ctx.count('scripted_setup_incomplete')
+        return
+    a1 = j1['attempt_id']
+    if rng.random() < 0.5:
+        now = w.now_ms()
+        await w.dm.job_started(fz._worker_request(A, {'status': {'batch_id': bid, 'job_id': 1, 'attempt_id': a1, 'start_time': now, 'resources': []}}))
+    B = await w.create_instance('standard', cores=16)
+    await unschedule_job(w.dr_app, {'batch_id': bid, 'job_id': 1, 'attempt_id': a1, 'instance_name': A.name})
+    for _ in range(2):
+        await A.incr_failed_request_count()  # A stops answering: the scheduler no longer places jobs there
+    await pool.scheduler.schedule_loop_body()
+    await fz._drain()
+    fz.sync_attempts_from_db()
+    j1 = View(w.engine).jobs[(bid, 1)]
+    a2 = j1['attempt_id']
+    att2 = w.engine.tables['attempts'].pk_get(bid, 1, a2) if a2 else None
+    if j1['state'] == 'Running' and att2 is not None and att2['instance_name'] == B.name:
+        ctx.count('scripted_stale_attempt_then_deactivation')
+    await A.deactivate(rng.choice(['not_responding', 'preempted', 'terminated']), w.now_ms())  # judged by the edge monitor at this commit
+
+
 def run(ctx):
+    from vf.world.patterns import Patterns
+    from vf.world.run import HistoryRunner
+
+    p = Patterns()
+    r = HistoryRunner(ctx, [p, sqlmon.EdgeMonitor(p, check_cancel=False), Tallies(p)], cfg={'weights': dict(sqlmon.WEIGHTS_RUN), 'job_private': False},
+                      n_ops=ctx.pick(15, 30), setup=scripted)
+    for i, rng in ctx.cases(ctx.pick(15, 100), 'scripted'):
+        res = r.run_case(i, rng)
+        ops = res.get('ops', [])
+        ctx.case(sample={'scripted-prefix+ops': ops[:30]}, key=('scripted', i, tuple(ops)), nontrivial=True)
     sqlmon.standard_run(ctx, lambda p: [sqlmon.EdgeMonitor(p, check_cancel=False), Tallies(p)],
                         cfg={'weights': {'job_complete': 16, 'job_started': 8, 'unschedule': 3, 'deactivate_instance': 2}})
